@@ -9,8 +9,8 @@
   * canonical order of the cells of one type (`cells_canonical`).
 -/
 import FcProofs.Lemmas.LexsortPoints
-namespace Fc
-open Spec
+namespace Fc.C02
+open Fc.C02.Spec
 
 /-! ### reflexivity of the predicates -/
 
@@ -196,4 +196,4 @@ theorem cells_canonical {as1 as2 : List Int → List Nat} (h1 : IsArgsort as1) (
   intro a b ha hb hab hba
   exact hinj a (p1.mem_iff.mp ha) b (hperm.mem_iff.mpr (p2.mem_iff.mp hb)) (le_antisymm hab hba)
 
-end Fc
+end Fc.C02
